@@ -43,6 +43,7 @@ type progOpts struct {
 	RegistryGrowStep    int  `json:"rgs"`
 	MinimizeStackMemory bool `json:"msm"`
 	NoContext           bool `json:"noctx"`
+	File                bool `json:"file"`   // load the source from a file named "c" (LoadFile) instead of from a string
 	Thread              bool `json:"thread"` // run the program in a state made by NewThread, the context attached to THAT state
 }
 
@@ -397,7 +398,24 @@ func runProgram(p progIn) (res progOut) {
 			res.Outcome = []interface{}{"gopanic", fmt.Sprint(r)}
 		}
 	}()
-	fn, err := R.Load(strings.NewReader(p.Src), "c")
+	var fn *lua.LFunction
+	var err error
+	if p.Opts != nil && p.Opts.File {
+		dir, derr := os.MkdirTemp("", "verif-c17-")
+		if derr != nil {
+			panic(derr)
+		}
+		defer os.RemoveAll(dir)
+		if werr := os.WriteFile(dir+"/c", []byte(p.Src), 0o644); werr != nil {
+			panic(werr)
+		}
+		cwd, _ := os.Getwd()
+		os.Chdir(dir)
+		fn, err = R.LoadFile("c")
+		os.Chdir(cwd)
+	} else {
+		fn, err = R.Load(strings.NewReader(p.Src), "c")
+	}
 	if err != nil {
 		res.Outcome = []interface{}{"loaderr", err.Error()}
 		return
